@@ -119,6 +119,10 @@ def first_cause_oracle(ix: Index) -> list[Violation]:
         for fd in fds:
             for j, (key, sig, det) in enumerate(ix.causes.get(fd, [])):
                 causes.append((key, j, sig, det, fd))
+        # a synchronously raising write is a cause only where the library was told (send_messages reports it as fatal);
+        # raised inside a transport callback such as connection_made it goes to the loop's exception handler instead
+        told = {x.get("fault") for _s, e, _t in ix.fatal.get(c, []) for x in e.get("chain", []) if x.get("fault")}
+        causes = [x for x in causes if x[2] != "write_raise" or x[3] in told]
         if not causes:
             continue
         causes.sort(key=lambda x: (x[0], x[1]))
@@ -145,7 +149,13 @@ def first_cause_oracle(ix: Index) -> list[Violation]:
             if op.do in ("disconnect",):
                 continue
             ids_in_chain = [x.get("fault") for x in err.get("chain", []) if x.get("fault")]
-            if sig1 in ("oserror", "send_oserror"):
+            # a synchronously raising write in the turn of the first cause: processing an earlier frame of the same chunk
+            # may have hit it before the later bytes were even parsed - either cause is legitimate for the waiter
+            if ids_in_chain and any(sg == "write_raise" and kk[0] == k1[0] for kk, _j, sg, _d, _f in causes):
+                continue
+            if sig1 == "write_raise" and any(sg != "write_raise" and kk[0] == k1[0] for kk, _j, sg, _d, _f in causes):
+                continue  # same turn as another cause: which one the library met first depends on what it was processing
+            if sig1 in ("oserror", "send_oserror", "write_raise"):
                 if not ids_in_chain:
                     out.append(Violation("first-cause", f"{sig1}:lost", f"{op.do} failed with {err.get('cls')} ({err.get('text')}) without the injected {det1} in its cause chain"))
                 continue
